@@ -60,6 +60,22 @@ def features_of_sql(sql):
 def run_case(ctx, case_seed, i):
   rng = random.Random(case_seed)
   prog = progen.generate(rng, features_for(i))
+  if i % 2:
+    # plan-selecting annotations on intermediates: stored tables (@Ground), WITH tables shared by several parents,
+    # inline sub-queries - the nesting of WITH clauses and the statements around them differ by dialect
+    from vf.checks import c08
+    from vf.gen import transform
+    inter = c08.intermediates(prog)
+    rng.shuffle(inter)
+    anns = []
+    for p in inter[:rng.choice([1, 2, 2, 3])]:
+      anns.append((rng.choice(['Ground', 'Ground', 'With', 'With', 'NoInject', 'NoWith']), p))
+    if anns:
+      prog = transform.clone(prog)
+      prog['annotations'] = list(prog['annotations']) + anns
+      ctx.count('programs_with_plan_annotations')
+      for a, _ in anns:
+        ctx.count('annotation_' + a)
   base_text, _ = printer.program_text(prog)
   preds = [p for p in semantic.concrete_preds(prog) if prog['preds'][p]['kind'] != 'ext'][-3:] + \
       [p for p in prog['order'] if prog['preds'][p]['kind'] == 'ext'][:1]
@@ -128,7 +144,8 @@ def classify_internal(engine, out):
 def finalize(agg, tier):
   out = []
   c = agg['counters']
-  for k in ['programs', 'compilations', 'sql_ok', 'statements_checked', 'sqlite_calibration_agree'] + ['sql_' + e for e in ENGINES]:
+  for k in ['programs', 'compilations', 'sql_ok', 'statements_checked', 'sqlite_calibration_agree', 'programs_with_plan_annotations',
+            'annotation_Ground', 'annotation_With'] + ['sql_' + e for e in ENGINES]:
     if not c.get(k):
       out.append('mandatory counter %s is zero' % k)
   return out
